@@ -263,10 +263,33 @@ class EditGen:
                 orphans = [x for x in orphans if not self.reaches(x[1].reference, d)]
                 if orphans:
                     return {"op": "add_child", "on": self.hd(d), "x": r.choice(orphans)[0]}
-            if x < 0.92 and len(d.ports):
+            if x < 0.88 and len(d.ports):
                 p = r.choice(list(d.ports))
                 if len(p.pins):
                     return {"op": "remove_pin", "on": self.hd(p), "x": self.hd(r.choice(list(p.pins)))}
+            if x < 0.94:
+                # re-parent: a wire moves to another cable / a pin to another port (the old path is gone although the
+                # item still has a parent of the right kind)
+                if r.random() < 0.5:
+                    cabs = [c for c in d.cables if len(c.wires)]
+                    others = [c for dd in defs for c in dd.cables]
+                    if cabs and len(others) > 1:
+                        c = r.choice(cabs)
+                        to = r.choice([o for o in others if o is not c])
+                        wr = r.choice(list(c.wires))
+                        if not wr.pins and self.hd(wr) and self.hd(to):
+                            return [{"op": "remove_wire", "on": self.hd(c), "x": self.hd(wr)},
+                                    {"op": "add_wire", "on": self.hd(to), "x": self.hd(wr)}]
+                else:
+                    ports = [p for p in d.ports if len(p.pins)]
+                    others = [p for dd in defs for p in dd.ports]
+                    if ports and len(others) > 1:
+                        p = r.choice(ports)
+                        to = r.choice([o for o in others if o is not p])
+                        pin = r.choice(list(p.pins))
+                        if self.hd(pin) and self.hd(to):
+                            return [{"op": "remove_pin", "on": self.hd(p), "x": self.hd(pin)},
+                                    {"op": "add_pin", "on": self.hd(to), "x": self.hd(pin)}]
             if x < 1.0:
                 cabs = [c for c in d.cables if len(c.wires)]
                 if cabs:
@@ -296,6 +319,8 @@ class QueryGen:
         self.k = 0
 
     def __call__(self):
+        if getattr(self, "pending", None):
+            return self.pending.pop(0)
         while self.k < len(self.plan):
             what = self.plan[self.k]
             self.k += 1
@@ -307,6 +332,9 @@ class QueryGen:
                 return {"op": "hrecheck"}
             if what == "edit":
                 e = self.edit.next_edit()
+                if isinstance(e, list):
+                    self.pending = e[1:]
+                    e = e[0]
                 if e is not None and e.get("on") is not None:
                     return e
                 continue
